@@ -122,7 +122,11 @@ let w_q x = L [w_z (QcInst.qc_num x); I (bits_of_pos (QcInst.qc_den x))]
 let r_qs t = r_list r_q t
 let w_qs l = w_list w_q l
 (* grid: [tol, nodes, weights] *)
-let r_grid t = match as_list t with [tol; xs; ws] -> (r_q tol, (r_qs xs, r_qs ws)) | _ -> failwith "expected grid"
+(* [rel, nodes, weights]: tolerance = rel * node spread (Lagr.mk_grid);  [[tol], nodes, weights]: explicit tolerance *)
+let r_grid t = match as_list t with
+  | [L [tol]; xs; ws] -> (r_q tol, (r_qs xs, r_qs ws))
+  | [rel; xs; ws] -> QcRun.q_mk_grid (r_q rel) (r_qs xs) (r_qs ws)
+  | _ -> failwith "expected grid"
 (* term: [weight, grids, data] *)
 let r_term t = match as_list t with [w; gs; ys] -> (r_q w, (r_list r_grid gs, r_qs ys)) | _ -> failwith "expected term"
 let r_shape t = r_list r_nat t
